@@ -347,4 +347,110 @@ def muxSplit (B : Nat) (pm cm : List CMir) (src : CVec α) (trgs : List (CVec α
   (List.range cm.length).map fun c =>
     cscatter (pm.getD c default) (trgs.getD c default).zero ((childBufs.drop (c * B)).take B) 1 0
 
+
+/-! ## More of the Global layer: norms, reductions, Global::Vector arithmetic, the second
+`Global::Matrix::apply` overload, `extract_diag` / `lump_rows`, `Global::Filter` with unit filters -/
+
+/-- `Global::Vector::norm2sqr` = `dot(this, this)` -/
+def gnorm2sqr (ps : List Patch) (xs : List (List α)) : α := gdot ps xs xs
+
+/-- `Global::Vector::norm2` = `Math::sqrt(norm2sqr())`, and `Gate::norm2(x)` = `sqrt(sum(x*x))`;
+the square root is a parameter (the deterministic rational `qsqrt` in the driver) -/
+def gnorm2 (sqrt : α → α) (ps : List Patch) (xs : List (List α)) : α := sqrt (gnorm2sqr ps xs)
+
+/-- `Gate::sum`: allreduce-sum of one scalar per rank -/
+def allSum (l : List α) : α := l.foldl (· + ·) 0
+
+/-- `Gate::norm2(x)`: `sqrt(Σ_r x_r²)` -/
+def gateNorm2 (sqrt : α → α) (l : List α) : α := sqrt (allSum (l.map fun x => x * x))
+
+section Order
+variable [LT α] [DecidableLT α] [Neg α]
+
+def maxOf (a b : α) : α := if a < b then b else a
+def minOf (a b : α) : α := if b < a then b else a
+def absOf (a : α) : α := if a < 0 then -a else a
+
+/-- `Gate::max` / `Gate::min`: allreduce over one scalar per rank (at least one rank) -/
+def allMax (l : List α) : α := l.tail.foldl maxOf (l.headD 0)
+def allMin (l : List α) : α := l.tail.foldl minOf (l.headD 0)
+
+/-- `DenseVector::max_abs_element` (value of the entry found by `MaxAbsIndex`, which starts from 0) -/
+def localMaxAbs (v : List α) : α := v.foldl (fun m x => maxOf m (absOf x)) 0
+/-- `min_abs_element`, `max_element`, `min_element` (non-empty vectors) -/
+def localMinAbs (v : List α) : α := allMin (v.map absOf)
+def localMax (v : List α) : α := allMax v
+def localMin (v : List α) : α := allMin v
+
+/-- `Global::Vector::max_abs_element` etc.: local value, then `Gate::max` / `Gate::min` -/
+def gMaxAbs (xs : List (List α)) : α := allMax (xs.map localMaxAbs)
+def gMinAbs (xs : List (List α)) : α := allMin (xs.map localMinAbs)
+def gMax (xs : List (List α)) : α := allMax (xs.map localMax)
+def gMin (xs : List (List α)) : α := allMin (xs.map localMin)
+
+end Order
+
+/-- `Global::Vector::axpy(x, a)`: `this += a*x`, and `scale(x, b)`: `this = b*x` (purely local) -/
+def vAxpy (y x : List α) (a : α) : List α := List.zipWith (fun yi xi => yi + a * xi) y x
+def vScale (x : List α) (b : α) : List α := x.map fun xi => b * xi
+
+/-- the little Global::Vector program of the `vops` case: `r.copy(y); r.axpy(x, a); r.scale(r, b)`,
+then (`mode = 1`) `r.sync_1()` -/
+def vopsLocal (a b : α) (ys xs : List (List α)) : List (List α) :=
+  List.zipWith (fun y x => vScale (vAxpy y x a) b) ys xs
+
+/-- CSR `apply(r, x, y, alpha)`: `r = y + alpha * A x` -/
+def matVecAxpy (rows : List (List (Nat × α))) (x y : List α) (alpha : α) : List α :=
+  List.zipWith (fun yi axi => yi + alpha * axi) y (matVec rows x)
+
+/-- `Global::Matrix::apply(r, x, y, alpha)`: `r.copy(y); r.from_1_to_0(); local apply; r.sync_0()` -/
+def gapply2 (ps : List Patch) (ords : List (List Nat)) (mats : List (List (List (Nat × α))))
+    (xs ys : List (List α)) (alpha : α) : List (List α) :=
+  sync0 ps ords ((List.range ps.length).map fun r =>
+    matVecAxpy (mats.getD r []) (xs.getD r []) (from1to0 (ps.getD r default) (ys.getD r [])) alpha)
+
+/-- CSR `extract_diag`: the entry `(i, i)` of row `i` (0 if not in the pattern; first match) -/
+def matDiag (rows : List (List (Nat × α))) : List α :=
+  rows.zipIdx.map fun (row, i) => ((row.find? fun e => e.1 == i).map (·.2)).getD 0
+
+/-- CSR `lump_rows`: row sums -/
+def matLump (rows : List (List (Nat × α))) : List α :=
+  rows.map fun row => row.foldl (fun acc e => acc + e.2) 0
+
+/-- `Global::Matrix::extract_diag(diag, sync = true)` / `lump_rows(lump, sync = true)` -/
+def gdiag (ps : List Patch) (ords : List (List Nat)) (mats : List (List (List (Nat × α)))) : List (List α) :=
+  sync0 ps ords ((List.range ps.length).map fun r => matDiag (mats.getD r []))
+def glump (ps : List Patch) (ords : List (List Nat)) (mats : List (List (List (Nat × α)))) : List (List α) :=
+  sync0 ps ords ((List.range ps.length).map fun r => matLump (mats.getD r []))
+
+/-- `UnitFilter::filter_rhs` / `filter_sol`: `v[idx_k] = val_k` in storage order;
+`filter_def` / `filter_cor`: `v[idx_k] = 0` -/
+def unitFilterSet (f : List (Nat × α)) (v : List α) : List α :=
+  f.foldl (fun w e => w.set e.1 e.2) v
+def unitFilterZero (f : List (Nat × α)) (v : List α) : List α :=
+  f.foldl (fun w e => w.set e.1 0) v
+
+/-- `Global::Filter<UnitFilter>::filter_*` on every patch (no communication) -/
+def gfilter (zero : Bool) (fs : List (List (Nat × α))) (vs : List (List α)) : List (List α) :=
+  List.zipWith (fun f v => if zero then unitFilterZero f v else unitFilterSet f v) fs vs
+
+/-- blocked decomposition: every DOF `g` becomes the `bs` DOFs `g*bs + k` -/
+def Decomp.expand (bs : Nat) (d : Decomp) : Decomp :=
+  { maps := d.maps.map fun m => Dist.expand bs m, patches := d.patches.map (Patch.expand bs) }
+
+
+/-! ### Global::Splitter (base splitter): a muxer between the partitioned vector and the unpartitioned
+base-mesh vector.  `join` converts the (type-1) patch vectors to type-0 first (`from_1_to_0`), so that the
+muxer's summation over the patches gives every base DOF its value exactly once; `split` is the muxer split.
+Patch `r` is child `r`; its root mirror is `rm r` (identity on the patch), its patch mirror on the base vector `bm r`. -/
+
+def splitterJoin (B : Nat) (ps : List Patch) (rm bm : List (List Nat)) (vs : List (List α)) (nBase : Nat) : List α :=
+  (muxJoin B (rm.map CMir.leaf) (bm.map CMir.leaf)
+    ((List.range ps.length).map fun r => CVec.leaf 1 (from1to0 (ps.getD r default) (vs.getD r [])))
+    (CVec.leaf 1 (List.replicate nBase 0))).flat
+
+def splitterSplit (B : Nat) (ps : List Patch) (rm bm : List (List Nat)) (base : List α) : List (List α) :=
+  (muxSplit B (rm.map CMir.leaf) (bm.map CMir.leaf) (CVec.leaf 1 base)
+    (ps.map fun p => CVec.leaf 1 (List.replicate p.n 0))).map CVec.flat
+
 end FeatModel.Dist
